@@ -124,6 +124,7 @@ typedef struct rt_hooks_s {
 	int (*at_quiescence) (void *arg, int livelock);
 	void (*finish) (void *arg);
 	void *arg;
+	void (*on_free) (void *arg, void *block, size_t size);  /* may be NULL; called by the freeing thread while the block is still intact */
 } rt_hooks;
 
 void rt_execute (const rt_config *cfg, const rt_hooks *hooks, rt_verdict *v, rt_stats *st);
